@@ -1,6 +1,7 @@
 SPECIFICATION Spec
 CONSTANTS
   Assets = {"A", "B"}
+  Bug = "none"
   MaxDepth = 6
   FeeChoice = 3
   PfLevel = FALSE
